@@ -3,6 +3,7 @@
 use crate::controls::{Control, RawControl};
 use crate::controls_impl::build_tag;
 use crate::exop::Exop;
+use crate::exop_impl::construct_exop;
 use crate::filter::Unescaper;
 use crate::ldap::Ldap;
 use crate::protocol::LdapCodec;
@@ -10,7 +11,7 @@ use crate::result::{LdapResult, LdapResultExt};
 
 use bytes::BytesMut;
 use lber::structure::StructureTag;
-use lber::structures::Tag;
+use lber::structures::{ASNTag, Tag};
 use std::collections::HashSet;
 use std::sync::{Arc, Mutex};
 use tokio_util::codec::{Decoder, Encoder};
@@ -38,6 +39,14 @@ pub fn result_ext(t: Tag) -> (LdapResult, Exop, Option<Vec<u8>>) {
 
 pub fn controls_build_tag(rc: RawControl) -> StructureTag {
     build_tag(rc)
+}
+
+/// The ExtendedRequest components `Ldap::extended()` puts on the wire for an `Exop`.
+pub fn exop_tags(e: Exop) -> Vec<StructureTag> {
+    construct_exop(e)
+        .into_iter()
+        .map(|t| t.into_structure())
+        .collect()
 }
 
 pub fn ldap_with_ids(last: i32, inuse: HashSet<i32>) -> Ldap {
